@@ -270,6 +270,53 @@ def submission(cases):
     return out
 
 
+def submission_probs(cases):
+    """JobGraph._generate_task_graph(resolve_conditionals_at_submission=True): the probability of every task
+    afterwards (numerators), with the key order / children lists of the JOB graph"""
+    from workload import JobGraph
+    out = []
+    for c in cases:
+        jobs = {}
+        for i, (terminal, conditional, prob) in c["jobs"].items():
+            strategies = ExecutionStrategies([ExecutionStrategy(resources=Resources(resource_vector={}, _logger=LG),
+                                                                batch_size=1, runtime=et(5))])
+            jobs[int(i)] = Job(name="j%s" % i, profile=WorkProfile(name="jp%s" % i, execution_strategies=strategies),
+                               conditional=bool(conditional), terminal=bool(terminal), probability=prob / c["den"])
+        jg = JobGraph(name="JG", jobs={jobs[n]: [jobs[x] for x in cs] for n, cs in c["adj"]})
+
+        class F:
+            resolve_conditionals_at_submission = True
+            min_deadline_variance = 0
+            max_deadline_variance = 0
+            min_deadline = 0
+            max_deadline = 10 ** 9
+            use_branch_predicated_deadlines = False
+            decompose_deadlines = False
+            log_dir = None
+            log_file_name = None
+            log_level = "error"
+            random_seed = 0
+        canon = [[int(j.name[1:]), [int(x.name[1:]) for x in cs]] for j, cs in jg._graph.items()]
+        try:
+            tg = jg._generate_task_graph(release_time=et(0), task_graph_name="JG@0", timestamp=0, _flags=F)
+            probs = {}
+            for t in tg.get_nodes():
+                p = t.probability * c["den"]
+                if p != int(p):
+                    raise SystemExit("probability %r is not a multiple of 1/%d" % (t.probability, c["den"]))
+                probs[int(t.name[1:])] = int(p)
+            out.append([canon, [0, [[n, probs[n]] for n, _ in canon]]])
+        except ZeroDivisionError:
+            out.append([canon, [1, 8]])
+        except IndexError:
+            out.append([canon, [1, 5]])
+        except RuntimeError as e:
+            out.append([canon, [1, 2 if "not a DAG" in str(e) else 3]])
+        except (ValueError, KeyError, TypeError) as e:
+            out.append([canon, [1, 1]])
+    return out
+
+
 res = {}
 if "cases" in payload:
     rs, orders = [], []
@@ -283,4 +330,6 @@ if "choices_contract" in payload:
     res["choices_contract"] = choices_contract(payload["choices_contract"])
 if "submission" in payload:
     res["submission"] = submission(payload["submission"])
+if "submission_probs" in payload:
+    res["submission_probs"] = submission_probs(payload["submission_probs"])
 implutil.end(res)
